@@ -679,6 +679,95 @@ fn check_counts(b: &Base, case: &Value) -> Result<String, String> {
     Ok(if allowed { "counts:merged" } else { "counts:refused" }.into())
 }
 
+/// IO finalization as its own dimension: for one shielded bundle, the two copies independently
+/// carry `bsk` or not, agree or not on the number of spends / outputs / actions (one copy lacks
+/// the last entry of one list) and on `value_sum`, under both values of the shielded-modifiable
+/// flag of each copy; both orders.
+///
+/// Reference, from the documentation of the merge and of the fields: a copy that carries `bsk`
+/// has been through the IO Finalizer, after which counts and value sum are frozen - any
+/// disagreement on them is a conflict, whichever copy comes first. Before that (neither copy
+/// carries `bsk`) the copy with fewer entries must allow shielded modification; the value sum is
+/// "updated by the Constructor as spends or outputs are added", so the copy with more entries
+/// carries the current one, and with equal counts the two must agree. A combination keeps `bsk`
+/// if either copy carried it.
+fn check_frozen(b: &Base, case: &Value) -> Result<String, String> {
+    let bundle: &'static str = match case["bundle"].as_str() {
+        Some("sapling") => "sapling",
+        Some("orchard") => "orchard",
+        Some("ironwood") => "ironwood",
+        _ => return Err("bundle".into()),
+    };
+    let list: Option<&'static str> = match case["list"].as_str() {
+        Some("spends") => Some("spends"),
+        Some("outputs") => Some("outputs"),
+        Some("actions") => Some("actions"),
+        _ => None,
+    };
+    let who = case["who"].as_str().unwrap_or("none"); // which copy lacks the last entry of `list`
+    let bsk = case["bsk"].as_str().unwrap_or("none"); // none | a | b | both
+    let vs = case["vs"].as_bool().unwrap_or(false); // copy A carries a different value_sum
+    let (fa, fb) = (case["fa"].as_u64().unwrap_or(0) as u8, case["fb"].as_u64().unwrap_or(0) as u8);
+    let flags_path = [tree::Step::Field("global"), tree::Step::Field("tx_modifiable")];
+    let bsk_path = [tree::Step::Field(bundle), tree::Step::Inner, tree::Step::Field("bsk")];
+    let vs_path = [tree::Step::Field(bundle), tree::Step::Inner, tree::Step::Field("value_sum")];
+    let key = match b.top.get(&bsk_path) {
+        Some(T::Some(x)) => (**x).clone(),
+        Some(T::None) => T::BT(vec![0x11; 32]),
+        _ => return Ok("frozen:no-such-bundle".into()),
+    };
+    let mk = |me: &str, flags: u8| -> Result<Option<(T, Pczt)>, String> {
+        let mut t = b.top.clone();
+        *t.get_mut(&flags_path).ok_or("no global.tx_modifiable")? = T::U8(flags);
+        *t.get_mut(&bsk_path).ok_or("no bsk")? = if bsk == "both" || bsk == me { T::Some(Box::new(key.clone())) } else { T::None };
+        if let (Some(l), true) = (list, who == me) {
+            match t.get_mut(&list_path(bundle, l)) {
+                Some(T::Seq(xs)) if !xs.is_empty() => xs.truncate(xs.len() - 1),
+                _ => return Ok(None),
+            }
+        }
+        if vs && me == "a" {
+            tree::alter(t.get_mut(&vs_path).ok_or("no value_sum")?);
+        }
+        Ok(parse_tree(&t).ok().map(|p| (t, p)))
+    };
+    let (Some((ta, pa)), Some((tb_, pb))) = (mk("a", fa)?, mk("b", fb)?) else { return Ok("frozen:unrepresentable".into()) };
+    let counts_differ = list.is_some() && who != "none";
+    let finalized = bsk != "none";
+    let shorter_flags = if who == "a" { fa } else { fb };
+    let allowed = if finalized {
+        !counts_differ && !vs
+    } else if counts_differ {
+        shorter_flags & 0b1000_0000 != 0
+    } else {
+        !vs
+    };
+    // the combination: the copy with more entries (either, if equal), with bsk if any copy had it
+    let mut want = if who == "a" { tb_.clone() } else { ta.clone() };
+    *want.get_mut(&flags_path).ok_or("no flags")? = T::U8((fa & fb & 0b1000_0011) | ((fa | fb) & 0b0000_0100));
+    *want.get_mut(&bsk_path).ok_or("no bsk")? = if finalized { T::Some(Box::new(key.clone())) } else { T::None };
+    let want_bytes = tree::pczt_bytes(2, &want);
+    let ab = shapes::combine(vec![pa.clone(), pb.clone()]);
+    let ba = shapes::combine(vec![pb, pa]);
+    let describe = |r: &Result<Pczt, String>| match r {
+        Ok(_) => "Ok".to_string(),
+        Err(e) => format!("Err({e})"),
+    };
+    if ab.is_ok() != ba.is_ok() {
+        return Err(format!("the outcome depends on the order of the copies: combine([A, B]) = {}, combine([B, A]) = {}", describe(&ab), describe(&ba)));
+    }
+    let why = if finalized { "a copy carries bsk (IO-finalized): counts and value sum are frozen" } else { "the copy with fewer entries does not allow shielded modification, or equal counts carry different value sums" };
+    for (r, what) in [(&ab, "combine([A, B])"), (&ba, "combine([B, A])")] {
+        match (r, allowed) {
+            (Err(e), false) if e == "DataMismatch" => {}
+            (Ok(m), true) => same_bytes(m, &want_bytes, what)?,
+            (Ok(_), false) => return Err(format!("{what} succeeded although the copies conflict ({why})")),
+            (Err(e), _) => return Err(format!("{what} failed with {e}; the copies do not conflict")),
+        }
+    }
+    Ok(if allowed { "frozen:merged" } else { "frozen:refused" }.into())
+}
+
 pub fn check_case(b: &Base, case: &Value) -> Result<String, String> {
     let r = catch(|| -> Result<String, String> {
         match case["check"].as_str().unwrap_or("") {
@@ -703,6 +792,7 @@ pub fn check_case(b: &Base, case: &Value) -> Result<String, String> {
             }
             "lockvar" => check_lockvar(b, case),
             "counts" => check_counts(b, case),
+            "frozen" => check_frozen(b, case),
             "flags" => check_flags(b, case["l"].as_u64().unwrap_or(0) as u8, case["r"].as_u64().unwrap_or(0) as u8),
             "classify" => {
                 let id = case["atom"].as_str().unwrap_or("");
@@ -879,6 +969,32 @@ fn cases_for(b: &Base, args: &Args) -> Vec<Value> {
             }
         }
     }
+    // IO finalization (bsk) x counts x value sum x shielded-modifiable flag, per shielded bundle
+    if matches!(b.subject.as_str(), "multi_v6" | "s2o_v5") && matches!(b.base.as_str(), "created" | "maximal") {
+        for (bundle, lists) in [("sapling", &["spends", "outputs"][..]), ("orchard", &["actions"][..]), ("ironwood", &["actions"][..])] {
+            if b.top.get(&[tree::Step::Field(bundle), tree::Step::Inner]).is_none() {
+                continue;
+            }
+            let mut cuts: Vec<(Value, &str)> = vec![(Value::Null, "none")];
+            for l in lists {
+                if b.top.get(&list_path(bundle, l)).map(|x| !x.items().is_empty()).unwrap_or(false) {
+                    cuts.push((json!(l), "a"));
+                    cuts.push((json!(l), "b"));
+                }
+            }
+            for bsk in ["none", "a", "b", "both"] {
+                for (l, who) in &cuts {
+                    for vs in [false, true] {
+                        for fa in [0u8, 0x80] {
+                            for fb in [0u8, 0x80] {
+                                cases.push(with("frozen", json!({"bundle": bundle, "bsk": bsk, "list": l, "who": who, "vs": vs, "fa": fa, "fb": fb})));
+                            }
+                        }
+                    }
+                }
+            }
+        }
+    }
     // flags
     if b.base == "maximal" || b.base == "vector" {
         for l in flag_alphabet() {
@@ -946,7 +1062,7 @@ pub fn explore(run: &Run, args: &Args, subjects: &[Subjects]) {
                 "union" | "union_top" => 2,
                 "conflict" | "effecting" => 2,
                 "flags" => 1,
-                "counts" => 2,
+                "counts" | "frozen" => 2,
                 "assoc" => match c["sets"].as_array().map(|a| a.len()).unwrap_or(0) {
                     3 => 6 * (2 + 2 * 2),
                     _ => 24 * (3 + 5 * 3),
@@ -1014,6 +1130,7 @@ fn case_key(c: &Value) -> String {
         "effecting" => format!("effecting[{}|{}]", c["e"].as_str().unwrap_or(""), c["a"].as_str().unwrap_or("")),
         "flags" => format!("flags[{:#04x}|{:#04x}]", c["l"].as_u64().unwrap_or(0), c["r"].as_u64().unwrap_or(0)),
         "counts" => format!("counts[A-{}|B-{}|{:#04x}|{:#04x}]", c["a"], c["b"], c["fa"].as_u64().unwrap_or(0), c["fb"].as_u64().unwrap_or(0)),
+        "frozen" => format!("frozen[{}|bsk={}|{}-lacks-last-{}|value_sum-{}|{:#04x}|{:#04x}]", c["bundle"].as_str().unwrap_or(""), c["bsk"].as_str().unwrap_or(""), c["who"].as_str().unwrap_or(""), c["list"].as_str().unwrap_or("nothing"), if c["vs"] == true { "differs" } else { "equal" }, c["fa"].as_u64().unwrap_or(0), c["fb"].as_u64().unwrap_or(0)),
         "lockvar" => format!("lockvar[fallback={},height={},time={},sequence={}]", c["fallback"], c["height"], c["time"], c["sequence"]),
         "classify" => format!("classify[{}]", c["atom"].as_str().unwrap_or("")),
         x => x.to_string(),
